@@ -406,12 +406,12 @@ var _ = registerReplay("C13", "rand", checkC13)
 
 func TestC13(t *testing.T) {
 	runKnownExamples(t, "C13")
-	maxLen, pairs := 3, false
+	maxLen, pairs, pairLen := 3, false, 0
 	if tier() == "thorough" {
-		maxLen, pairs = 4, true
+		maxLen, pairs, pairLen = 5, true, 4
 	}
 	idx, n := shardInfo()
-	RunEnum(t, "C13", "enum", true, fmt.Sprintf("every sequence of 1..%d operations over {Put k1, Put k2, Get k1, Get k2, Start, Stop, Abort} (+ final Close) x no fault, every single failing primitive call%s; split over shards", maxLen, map[bool]string{true: " and every pair", false: ""}[pairs]),
+	RunEnum(t, "C13", "enum", true, fmt.Sprintf("every sequence of 1..%d operations over {Put k1, Put k2, Get k1, Get k2, Start, Stop, Abort} (+ final Close) x no fault, every single failing primitive call%s; split over shards", maxLen, map[bool]string{true: fmt.Sprintf(" and, for sequences up to length %d, every pair", pairLen), false: ""}[pairs]),
 		func(yield func(C13Case) bool) {
 			k := 0
 			var rec func(prefix []C13Op) bool
@@ -428,7 +428,7 @@ func TestC13(t *testing.T) {
 							if !yield(C13Case{Ops: base.Ops, Faults: []int{f}}) {
 								return false
 							}
-							if pairs {
+							if pairs && len(base.Ops) <= pairLen {
 								for g := f + 1; g <= p+2; g++ {
 									if !yield(C13Case{Ops: base.Ops, Faults: []int{f, g}}) {
 										return false
